@@ -84,7 +84,52 @@ def _packed_form(s, what: str) -> bytes:
     return raw
 
 
+# --------------------------------------------------------------------------------------------
+# Case key "hist" (not read by the model ops): the stamp of the line is not new. It was built with OTHER field values
+# ({"days", "ms"}, usually both non-zero), every view of it was read (fields, both time views, pack()), and it was then brought
+# to the values of the line IN PLACE - by read_from_raw() of the line's octets (cds_unpack; for cds_add "how": "read"), or by
+# an earlier addition ("how": "add") - before the line's own operation runs on it. A stamp is its two fields: what it shows
+# afterwards is what a stamp built directly with the final values shows (core.read_mutate_read) and what the model answers
+# for the line - also when a new field value is 0 (a midnight, day 0 of the epoch) and the old one was not.
+# Case key "factory" of cds_new (days = ms = 0): the stamp comes from CdsShortTimestamp.empty(); stamps the same factory handed
+# out before are re-used in place by the application (core.factory_independent).
+# --------------------------------------------------------------------------------------------
+STAMP_VIEWS = [
+    ("days", lambda s: int(s.ccsds_days)), ("ms", lambda s: int(s.ms_of_day)),
+    ("unix_ms", lambda s: _nearest(s.as_unix_seconds(), 1000)), ("dt", lambda s: _dt_view(s).isoformat()),
+    ("raw", lambda s: hx(s.pack())), ("pfield", lambda s: hx(s.pfield)), ("len", lambda s: int(s.len_packed)),
+]
+
+
+def _old_stamp(h):
+    """the stamp as it was before: built with the history's values, every view read once"""
+    s = CdsShortTimestamp(h["days"], h["ms"])
+    core.read_views(s, STAMP_VIEWS)
+    return s
+
+
+def _as_fresh(s, fresh, what: str):
+    now, want = core.read_views(s, STAMP_VIEWS), core.read_views(fresh, STAMP_VIEWS)
+    for n in now:
+        if now[n] != want[n]:
+            raise SelfCheckFailure(f"{what}: `{n}` shows {now[n]}, a stamp built directly with the final values shows {want[n]}")
+    if not (s == fresh) or not (fresh == s):
+        raise SelfCheckFailure(f"{what}: the stamp is not == to a stamp built directly with the final values")
+
+
 def op_cds_new(a):
+    if a.get("factory") == "empty":
+        if a["days"] != 0 or a["ms"] != 0:
+            raise InfraError("malformed line: empty() is documented as day 0, millisecond 0")
+        other = _raw(0x40, 30000, 1000)
+
+        def reuse(s):
+            s.read_from_raw(other)
+            s + timedelta(days=1, seconds=1)
+        err = core.factory_independent(CdsShortTimestamp.empty, _detached_view, reuse, "CdsShortTimestamp.empty()")
+        if err is not None:
+            raise SelfCheckFailure(err)
+        return _stamp_payload(CdsShortTimestamp.empty())
     s = CdsShortTimestamp(a["days"], a["ms"])
     if int(s.len_packed) != 7:
         raise SelfCheckFailure("len_packed != 7")
@@ -112,6 +157,12 @@ def op_cds_unpack(a):
     s = CdsShortTimestamp.unpack(raw)
     # stamps decoded by earlier calls must still show what they showed then
     _ISO.check("CdsShortTimestamp", s, _stamp_view)
+    if a.get("hist"):
+        h = a["hist"]
+        old = _old_stamp(h)
+        old.read_from_raw(bytearray(raw) if h["ms"] & 1 else raw)
+        _as_fresh(old, s, f"read_from_raw({raw.hex()}) into a stamp that was ({h['days']}, {h['ms']}) and had been read")
+        return _stamp_payload(old)
     d, ms = CdsShortTimestamp.unpack_from_raw(raw)
     if (int(d), int(ms)) != (int(s.ccsds_days), int(s.ms_of_day)):
         raise SelfCheckFailure("unpack_from_raw and unpack disagree")
@@ -162,6 +213,23 @@ def op_cds_add(a):
     td = timedelta(days=a["td_days"], seconds=a["td_s"], microseconds=a["td_us"])
     if (td.days, td.seconds, td.microseconds) != (a["td_days"], a["td_s"], a["td_us"]):
         raise InfraError(f"generator produced a non-normalised timedelta: {a}")
+    if a.get("hist"):
+        h = a["hist"]
+        s = _old_stamp(h)
+        if h["how"] == "read":
+            s.read_from_raw(_raw(0x40, a["days"], a["ms"]))
+        elif h["how"] == "add":
+            gap = (a["days"] - h["days"]) * MS + a["ms"] - h["ms"]
+            if gap < 0:
+                raise InfraError("malformed line: the history lies after the stamp of the line")
+            s + timedelta(milliseconds=gap)
+        else:
+            raise InfraError(f"malformed line: how={h['how']!r}")
+        what = f"a stamp that was ({h['days']}, {h['ms']}), had been read and was brought to ({a['days']}, {a['ms']}) in place ({h['how']})"
+        _as_fresh(s, CdsShortTimestamp(a["days"], a["ms"]), what)
+        r = s + td
+        _as_fresh(r, CdsShortTimestamp(a["days"], a["ms"]) + td, what + f" + {td!r}")
+        return _stamp_payload(r)
     s = CdsShortTimestamp(a["days"], a["ms"])
     s.pack()    # a stamp that was packed before the addition: the sum must not keep the old packed form
     r = s + td
@@ -221,10 +289,12 @@ def _td_fields(total_us: int) -> Tuple[int, int, int]:
     return td.days, td.seconds, td.microseconds
 
 
-def _add_case(days: int, ms: int, td: Tuple[int, int, int], tag: str) -> Case:
+def _add_case(days: int, ms: int, td: Tuple[int, int, int], tag: str, hist: Optional[Dict[str, Any]] = None) -> Case:
     tdays, ts, tus = td
     t = days * MS + ms + tdays * MS + ts * 1000 + tus // 1000
     op = {"op": "cds_add", "days": days, "ms": ms, "td_days": tdays, "td_s": ts, "td_us": tus}
+    if hist is not None:
+        op["hist"] = hist
     if t // MS > MAX_DAYS:
         return Case(op, "invalid", errclass=True, tag=tag + "-overflow")
     return Case(op, "valid", tag=tag)
@@ -378,6 +448,35 @@ class C14(Prop):
             yield Case({"op": "cds_unpack", "raw": hx(_raw(0x40, d2, ms2) + _suffix(rng))}, "valid", tag="complement-pair")
             yield Case({"op": "cds_pack", "days": d, "ms": ms}, "valid", tag="complement-pair")
             yield Case({"op": "cds_pack", "days": d2, "ms": ms2}, "valid", tag="complement-pair")
+        # --- stamps re-used in place (key "hist"): read_from_raw into a stamp that held other values, additions on a stamp
+        #     that got its values in place; new field values 0 / boundary values over old non-zero ones and vice versa ---------
+        def old_fields():
+            return {"days": rng.choice([1, 30000, 65535, rng.randint(1, MAX_DAYS)]), "ms": rng.choice([1, 1000, MS - 1, rng.randrange(1, MS)])}
+
+        for d in [0, 0, 1, 4383, 65535] + [rdays() for _ in range(12 * mult)]:
+            for ms in [0, 0, 1, 1000, MS - 1] + [rms() for _ in range(3)]:
+                yield Case({"op": "cds_unpack", "raw": hx(_raw(0x40, d, ms) + _suffix(rng)), "hist": old_fields()}, "valid", tag="reused-read")
+        for h in ({"days": 0, "ms": 0}, {"days": 0, "ms": 5}, {"days": 7, "ms": 0}):
+            for d, ms in ((0, 0), (30000, 1000), (0, 777), (30001, 0), (65535, MS - 1)):
+                yield Case({"op": "cds_unpack", "raw": hx(_raw(0x40, d, ms)), "hist": dict(h)}, "valid", tag="reused-read")
+        for i in range(150 * mult):
+            d = rng.choice([0, 0, 1, 4383, 65534, 65535]) if rng.random() < 0.4 else rng.randint(0, MAX_DAYS)
+            ms = rng.choice([0, 0, 1, MS - 1000, MS - 1]) if rng.random() < 0.5 else rms()
+            if i % 2:
+                h = {**old_fields(), "how": "read"}
+            else:
+                d0 = rng.randint(max(d - 3, 0), d)
+                h = {"days": d0, "ms": rng.randrange(0, ms + 1) if d0 == d else rng.randrange(MS), "how": "add"}
+            rem = MS - ms
+            for delta in (0, -1, 1):
+                k = rng.choice([0, 0, 1, rng.randint(0, 400)])
+                tot_ms = k * MS + rem + delta
+                yield _add_case(d, ms, _td_fields(tot_ms * 1000 + rng.choice([0, 0, 1, 500, 999])), "reused-add-midnight", hist=dict(h))
+            yield _add_case(d, ms, (rng.choice([0, 1, MAX_DAYS - d, MAX_DAYS - d + 1]), rng.randint(0, 86399), rng.randint(0, 999_999)),
+                            "reused-add-random", hist=dict(h))
+            yield _add_case(d, ms, (0, 0, rng.choice([0, 999])), "reused-add-zero", hist=dict(h))
+        # the factory of the all-zero stamp
+        yield Case({"op": "cds_new", "days": 0, "ms": 0, "factory": "empty"}, "valid", tag="factory-empty")
         # --- day offsets ----------------------------------------------------------------------------
         for d in [-4383, -4382, -1, 0, 1, 4382, 4383, 4384, 61151, 61152] + [rng.randint(-4383, 61152) for _ in range(200 * mult)]:
             yield Case({"op": "cds_day_offsets", "d": d, "ms": rms()}, "valid", tag="day-offsets")
